@@ -16,8 +16,8 @@ PROPS = {
     "C01": {
         "title": "Every algorithm emits a sound, gap-free, index-exact edit script",
         "module": "SimilarVerif.Props.C01",
-        "suites": ["raw", "deadline", "api"],
-        "rule": "raw: all sequence pairs up to length 4 (thorough 5) over 3 symbols x 3 algorithms, all sub-range pairs of pairs up to length 3 (thorough 4) with slice and offset lookups, plus structured random pairs (7 families); non-trivial = at least one change and one equal item; distinct by request hash; api: every thin public entry point (per-algorithm modules, diff/diff_slices, capture wrappers, Capture::into_*, TextDiff::from_*, diff_slices, owned text types, builder/getter/formatter re-use, Change/InlineChange accessors and Display, udiff::unified_diff, remapper slices, get_close_matches on bytes) against its canonical path on exhaustive small and random cases (implementation-only, metamorphic)",
+        "suites": ["raw", "deadline", "api", "umyers"],
+        "rule": "raw: all sequence pairs up to length 4 (thorough 5) over 3 symbols x 3 algorithms, all sub-range pairs of pairs up to length 3 (thorough 4) with slice and offset lookups, plus structured random pairs (7 families); non-trivial = at least one change and one equal item; distinct by request hash; api: every thin public entry point (per-algorithm modules, diff/diff_slices, capture wrappers, Capture::into_*, TextDiff::from_*, diff_slices, owned text types, builder/getter/formatter re-use, Change/InlineChange accessors and Display, udiff::unified_diff, remapper slices, get_close_matches on bytes) against its canonical path on exhaustive small and random cases (implementation-only, metamorphic); umyers: the crate-internal common_prefix_len/common_suffix_len and ONE find_middle_snake search on fresh V arrays (split point, final contents of both V arrays, comparison and probe counts) compared with the model on every in-bounds sub-range pair of all pairs up to length 3 (thorough 4) over 3 symbols, offsets, five clocks, and on stripped random boxes; validator: the split point lies in the box, on a shortest path, and is no corner of a stripped box",
         "theorem_status": "LCS full (total + valid, every clock). Myers full (total + valid, every clock): Myers' middle-snake theory is formalised (furthest-reaching invariant, overlap at ceil(D/2), split point on an optimal path inside the box, not a corner) and discharges SnakeInBox/SnakeFound for every environment. Patience full (total + valid, every clock; needs the same-side comparisons of `unique` in bounds). Replay/coverage corollaries. Shift invariance full: diffing a sub-range = diffing the extracted slices with every index shifted by the range starts, all algorithms, every clock, aborts and counters included, also for arbitrary related hooks (Lemmas/Shift.lean).",
         "level_text": "Lean theorems: LCS, Myers and Patience total + valid (all inputs, in-bounds ranges, every clock; Myers' middle-snake theory formalised); replay and coverage corollaries; shift invariance of sub-range diffs. Exact call traces, comparison and probe counts of all three algorithms are compared with the model on exhaustive small scopes and random inputs, and an independent strict walker validates the implementation's streams.",
         "level_note": "the model is tied to the code by differential testing only; release-build wrap-around of usize is modelled as a panic (checked build)",
@@ -26,8 +26,8 @@ PROPS = {
     "C10": {
         "title": "Compact and Replace preserve meaning and cost of any valid script",
         "module": "SimilarVerif.Props.C10",
-        "suites": ["script"],
-        "rule": "script: every valid raw script (exact carried indices, split runs, insert-before-delete) over all pairs up to length 3 (thorough 4) over 2 symbols, plus random longer scripts with heavy repetition, through Replace, Compact, Compact+Replace, with the swap-repair switch off and on; non-trivial = script has a change and >= 2 calls",
+        "suites": ["script", "ucompact"],
+        "rule": "script: every valid raw script (exact carried indices, split runs, insert-before-delete) over all pairs up to length 3 (thorough 4) over 2 symbols, plus random longer scripts with heavy repetition, through Replace, Compact, Compact+Replace, with the swap-repair switch off and on; non-trivial = script has a change and >= 2 calls; ucompact: cleanup_diff_ops and ONE call of shift_diff_ops_up / shift_diff_ops_down at every change of every valid script over pairs up to length 3 (thorough 4) over 2 symbols plus random scripts (ops and returned pointer, shipped and repaired swap) compared with the model; validator: still a valid script with the same deleted/inserted item counts after every single helper call",
         "theorem_status": "full: Replace on all valid scripts; Compact (whenever it returns: validity, item counts, cost) and its totality/termination on valid input with exact or run-relative carried indices (quadratic round bound found by the termination proof); Compact then Replace valid, cost preserving, alternating",
         "level_text": "Lean theorems for Replace and for Compact over any valid script (validity, item counts, alternation, exactness under the repaired swap, finish once, totality); Compact model compared with the code on all valid scripts of a small scope and validated by an independent walker/normal-form checker.",
         "level_note": "the model's loop bounds (fuel) are proved sufficient (CompactT.cleanup_total_*); a `fuel` answer of the driver would be a disagreement",
@@ -66,8 +66,8 @@ PROPS.update({
     "C03": {
         "title": "Myers and LCS report a shortest edit script; ratio = 2*LCS/(N+M)",
         "module": "SimilarVerif.Props.C03",
-        "suites": ["raw", "cap", "text"],
-        "rule": "raw/cap as for C01/C02; the validator computes a brute-force DP LCS for every Myers and LCS run (raw and captured) and compares deleted+inserted, equal total and the f32 ratio; text: TextDiff::ops of every text diff of the text suite through the same validators (normal form / exact positions with known-finding attribution / minimality and f32 ratio)",
+        "suites": ["raw", "cap", "text", "umyers", "ulcs"],
+        "rule": "raw/cap as for C01/C02; the validator computes a brute-force DP LCS for every Myers and LCS run (raw and captured) and compares deleted+inserted, equal total and the f32 ratio; text: TextDiff::ops of every text diff of the text suite through the same validators (normal form / exact positions with known-finding attribution / minimality and f32 ratio); umyers/ulcs: ONE middle-snake search (split point + both V arrays) and the whole LCS table (every entry) compared with the model; validators: the split point is on a shortest path (brute-force LCS of both halves), every table entry is the LCS length of the two suffixes and absent exactly when that is 0",
         "theorem_status": "lower bound for every valid script (full); LCS minimal for all inputs and sub-ranges (full); clean-up and Replace keep item counts (partial correctness of Compact); Myers minimal (full: raw stream costs N+M-2L and beats every valid script; theory in Lemmas/MyersTheory+MyersOptimal); captured Myers and captured LCS end to end (capture_myers_minimal, capture_lcs_minimal_total: for in-bounds ranges without deadline the capture function RETURNS, its ops are valid, cost N+M-2L, nEq = L, ratio pair (2L, N+M), no valid script is cheaper)",
         "level_text": "Lean theorems: cost >= N+M-2L for every valid script; LCS raw stream attains it (table correctness + greedy walk optimality + prefix/suffix stripping); clean-up preserves counts; Myers raw stream attains it as well (middle-snake theory: the split point lies on an optimal path). Minimality is also validated on the implementation by brute force on the whole explored space.",
         "level_note": "Spec.lcsLen is the textbook recursion; ratio = 2L/(N+M) is proved for the exact fraction, the f32 value is the soft-float F32.ratio of that pair (Model/F32.lean), proved monotone and exact below 2^24, compared bit for bit with the implementation and with native Float32 on every request",
@@ -85,8 +85,8 @@ PROPS.update({
         "title": "Deadline expiry at any point still yields a valid diff, promptly; it is plumbed",
         "counts": True,
         "module": "SimilarVerif.Props.C07",
-        "suites": ["deadline", "text"],
-        "rule": "deadline: all pairs up to length 4 over 2 (thorough 3) symbols + random pairs x 3 algorithms x every expiry point k = 0..#checks+1 (sampled beyond 40) through algorithms::diff_deadline and capture_diff_deadline under the virtual clock; validators: script validity, finish once, comparisons after expiry <= 2x the hand-derived bound, never-expiring = none; text: TextDiffConfig deadline/timeout reach the algorithm; non-trivial = the clock actually expired",
+        "suites": ["deadline", "text", "umyers", "ulcs"],
+        "rule": "deadline: all pairs up to length 4 over 2 (thorough 3) symbols + random pairs x 3 algorithms x every expiry point k = 0..#checks+1 (sampled beyond 40) through algorithms::diff_deadline and capture_diff_deadline under the virtual clock; validators: script validity, finish once, comparisons after expiry <= 2x the hand-derived bound, never-expiring = none; text: TextDiffConfig deadline/timeout reach the algorithm; non-trivial = the clock actually expired; umyers/ulcs: the middle-snake search and the LCS table under the virtual clock (probe and comparison counts exact)",
         "theorem_status": "validity and finish-once for EVERY expiry point: LCS full (incl. totality), Myers full incl. totality, Patience full incl. totality (C01.patience_total_valid); never-expiring deadline = no deadline (all algorithms, recording hook and capture pipeline): full; LCS no comparison after expiry: full; Myers <= 3*min(N,M) comparisons after the first expired probe: full; Patience entered with an expired deadline: <= 5*min(N,M)+4 comparisons from entry (full); Patience expiring at ANY probe - of the outer run, of a gap run inside a hook call, or of the tail run: <= 7*min(N,M) comparisons after the first probe that answered 'exceeded' (patience_post_expiry_bound / _kth_probe, full, via a ghost-instrumented run proved equal to the model run)",
         "level_text": "Lean theorems quantify over all virtual-clock states, i.e. all expiry points; the virtual clock is the cfg(similar_verif) hook in /repo, so expiry at the k-th check is an input of the correspondence as well.",
         "level_note": "real time cannot be exhibited by the model: Instant::now() > deadline is replaced by the virtual clock under the guard",
@@ -103,8 +103,8 @@ PROPS.update({
     "C09": {
         "title": "Captured diffs are in canonical normal form",
         "module": "SimilarVerif.Props.C09",
-        "suites": ["cap", "script", "deadline", "text"],
-        "rule": "cap/deadline/script as for C02/C07/C10; the normal-form validator (alternation, no empty op, delete+insert merged, insert at latest position) runs on every captured op list and on every arbitrary script pushed through Compact+Replace; text: TextDiff::ops of every text diff of the text suite through the same validators (normal form / exact positions with known-finding attribution / minimality and f32 ratio)",
+        "suites": ["cap", "script", "deadline", "text", "ucompact"],
+        "rule": "cap/deadline/script as for C02/C07/C10; the normal-form validator (alternation, no empty op, delete+insert merged, insert at latest position) runs on every captured op list and on every arbitrary script pushed through Compact+Replace; text: TextDiff::ops of every text diff of the text suite through the same validators (normal form / exact positions with known-finding attribution / minimality and f32 ratio); ucompact: cleanup_diff_ops and ONE call of shift_diff_ops_up / shift_diff_ops_down at every change of every valid script (ops and returned pointer, shipped and repaired swap) compared with the model; validator: valid script, same item counts, no insertion left that could slide down",
         "theorem_status": "clauses 1-3 (alternation, no adjacent changes, no empty op) full for Replace on any valid script; clause 4 (insertion at latest position) full for the clean-up output (CompactT.cleanup_insert_latest, both swap variants); END TO END (capture_normal_form / capture_normalForm): for every algorithm, in-bounds ranges and EVERY clock the capture function returns a valid op list satisfying all four clauses (clause 4 carried through Replace: in the cleaned list every insertion is followed by an equal op or nothing, so a lone insertion before an equal run reaches the output unchanged)",
         "level_text": "Lean theorems: clauses 1-3 for the Replace stage on every valid script, clause 4 (insertion at its latest position) for the output of the clean-up on every valid script (shipped and repaired swap); clean-up model compared with the code on all valid scripts of a small scope and on every captured diff.",
         "level_note": "clause 4 is proved for the clean-up output; its transport through the Replace stage (which merges neighbours) is covered by the normal-form validator on every captured op list",
@@ -112,8 +112,8 @@ PROPS.update({
     "C11": {
         "title": "Every captured op carries exact positions in both sequences",
         "module": "SimilarVerif.Props.C11",
-        "suites": ["cap", "deadline", "text"],
-        "rule": "cap as for C02, without deadline; every captured op list is checked for exact positions; a failing case is re-run with the cfg(similar_verif) swap-repair switch and attributed to the known finding only if the failure disappears; text: TextDiff::ops of every text diff of the text suite through the same validators (normal form / exact positions with known-finding attribution / minimality and f32 ratio)",
+        "suites": ["cap", "deadline", "text", "ucompact"],
+        "rule": "cap as for C02, without deadline; every captured op list is checked for exact positions; a failing case is re-run with the cfg(similar_verif) swap-repair switch and attributed to the known finding only if the failure disappears; text: TextDiff::ops of every text diff of the text suite through the same validators (normal form / exact positions with known-finding attribution / minimality and f32 ratio); ucompact: the clean-up and its two shift helpers one call at a time, shipped and repaired swap, compared with the model",
         "theorem_status": "the unchanged code violates C11 (known finding KF-compact-swap): counterexample theorem on the shipped model; with the swap repair the clean-up keeps exactness for all valid scripts; shipped and repaired variants differ only in carried indices; Replace/LCS/Myers-without-deadline stages exact; end to end: captured Myers ops exact with the repaired swap (unconditional); capture_exact_repaired_total: with the repaired swap all three algorithms return exact captured ops without deadline (LCS for every clock: capture_lcs_exact_repaired; Patience raw stream exact: patience_raw_exact); expired_deadline_raw_not_exact: the raw Myers fallback insert is Carried but not Exact (rfl on a 2x2 input)",
         "level_text": "Lean theorems: negation witness for the shipped swap, positive theorem for the repaired swap, attribution lemma; both variants of the implementation compared with both variants of the model.",
         "level_note": "KNOWN FINDING listed in known_findings.json; the check prints KNOWN-FINDING and exits 0 only when every failure is attributable to the swap site",
@@ -121,8 +121,8 @@ PROPS.update({
     "C15": {
         "title": "Patience keeps a maximum in-order set of unique common items",
         "module": "SimilarVerif.Props.C15",
-        "suites": ["raw", "cap"],
-        "rule": "raw/cap as for C01/C02; for every Patience run (raw and captured) the validator computes the longest common in-order subsequence of the items unique on both sides by brute force and compares with the number of such items reported Equal",
+        "suites": ["raw", "cap", "uunique"],
+        "rule": "raw/cap as for C01/C02; for every Patience run (raw and captured) the validator computes the longest common in-order subsequence of the items unique on both sides by brute force and compares with the number of such items reported Equal; uunique: the crate-internal unique() on every sub-range of every sequence up to length 5 (thorough 6) over 3 symbols under five kinds of hashing (incl. colliding and constant hashes) and offsets, compared with the model and with a brute-force count",
         "theorem_status": "full: pairing clause (an anchored item is matched to its unique counterpart) and size clause (a chain of lcsLen(unique old, unique new) anchor pairs is reported Equal: the outer Myers run over the unique lists is optimal and every pair it reports reaches the user stream), raw stream, no deadline; captured variant proved as well (captured_count_ge_lis(_total), captured_anchor_matched_to_counterpart: capture_diff with Patience returns valid ops whose Equal total is at least the LIS bound, and pairs unique items with their counterparts)",
         "level_text": "Lean theorems: Patience streams are valid scripts; equal segments pair equal items, hence unique items their counterparts; unique() is ascending and in range; size clause: at least lcsLen(unique old, unique new) anchors are reported Equal (no deadline).",
         "level_note": "size clause proved for the raw stream and for captured ops (the pipeline preserves nEq)",
@@ -131,8 +131,8 @@ PROPS.update({
         "title": "Myers and Patience do work proportional to (N+M)*(D+1)",
         "counts": True,
         "module": "SimilarVerif.Props.C19",
-        "suites": ["cost"],
-        "rule": "cost: 700 (thorough 6000) generated pairs up to 600 (thorough 3000) items per side from 7 families (near-identical, block moves, periodic, heavy repeats, unrelated, unique-rich, small alphabet) x Myers and Patience; comparisons counted by the element type; non-trivial = near-identical (D*8 < N+M)",
+        "suites": ["cost", "umyers"],
+        "rule": "cost: 700 (thorough 6000) generated pairs up to 600 (thorough 3000) items per side from 7 families (near-identical, block moves, periodic, heavy repeats, unrelated, unique-rich, small alphabet) x Myers and Patience; comparisons counted by the element type; non-trivial = near-identical (D*8 < N+M); umyers: comparison counts of ONE middle-snake search and of the prefix/suffix scans, exact",
         "theorem_status": "Myers full: cmps <= 22 (N+M+1)(D+1) for every input without deadline (potential argument + middle-snake theory); per-scan costs; Patience full: cmps <= 57 (N+M+1)(D+1) with D the size of the script it reports, for element tests that come from two label sequences (EqPattern; false for inconsistent same-side relations, counterexample recorded): 22 for the outer run over the unique items, whose edit distance is at most the cost of any valid script (outer_le_cost), at most 35 for scans, gap runs and tail run; measured on the implementation: cross comparisons below 0.9 (N+M+1)(D+1), same-side below 1.4 per item",
         "level_text": "Lean theorems for the cost of the prefix/suffix scans; the cost model (exact comparison counts) is validated against the code on every request of every suite; the (N+M+1)(D+1) bound is a theorem for Myers (constant 22) and for Patience (constant 57, D its own script) and is also checked by measurement (constant 3).",
         "level_note": "the proved constants (22, 57) are far from the measured one (< 0.9); the Patience bound needs element tests that come from two label sequences (EqPattern; counterexample without it in the Props file); wall-clock time is not modelled, comparisons are the proxy the property names",
@@ -170,8 +170,8 @@ PROPS.update({
     "C16": {
         "title": "Inline changes re-split each line losslessly; only changed words emphasised",
         "module": "SimilarVerif.Props.C16",
-        "suites": ["inline", "api"],
-        "rule": "inline: line diffs of text pairs sharing words (multi-byte words, mixed terminators, missing final newline) x algorithms x inline deadline none / expired / small fuel; every op of every diff through iter_inline_changes_deadline; word segmentation passed as external parameter; non-trivial = a Replace op passing both ratio gates; api: every thin public entry point (per-algorithm modules, diff/diff_slices, capture wrappers, Capture::into_*, TextDiff::from_*, diff_slices, owned text types, builder/getter/formatter re-use, Change/InlineChange accessors and Display, udiff::unified_diff, remapper slices, get_close_matches on bytes) against its canonical path on exhaustive small and random cases (implementation-only, metamorphic)",
+        "suites": ["inline", "api", "uinline"],
+        "rule": "inline: line diffs of text pairs sharing words (multi-byte words, mixed terminators, missing final newline) x algorithms x inline deadline none / expired / small fuel; every op of every diff through iter_inline_changes_deadline; word segmentation passed as external parameter; non-trivial = a Replace op passing both ratio gates; api: every thin public entry point (per-algorithm modules, diff/diff_slices, capture wrappers, Capture::into_*, TextDiff::from_*, diff_slices, owned text types, builder/getter/formatter re-use, Change/InlineChange accessors and Display, udiff::unified_diff, remapper slices, get_close_matches on bytes) against its canonical path on exhaustive small and random cases (implementation-only, metamorphic); uinline: MultiLookup's word table, get_original_slices on word runs and push_values sequences compared with the model; validator: slices concatenate to the words, emphasised segments contain no line break",
         "theorem_status": "full relative to (i) the word segmenter's contract SegsOK and (ii) validity of the second-level captured ops (C02): same tags/indices as plain expansion, segments concatenate to the line, emphasised segments are non-newline runs without line breaks, missing-newline flag agrees; both outcomes of each ratio gate covered; the gates are soft-float comparisons (F32.lt .. F32.half) and gate_fires_iff characterises them exactly below 2^24 tokens (fires iff 4*matches < len); hypothesis (ii) discharged: second_level_total/valid, replace_refined_uncond, inline_changes_total (for a valid line diff over non-empty line tokens and a segmenter meeting SegsOK every op expands without panic with the stated tags, indices, concatenations, emphasis shape and missing-newline flag), inline_text_diff_total (from the two texts, any algorithm and clock)",
         "level_text": "Lean theorems for every op kind and both outcomes of both ratio gates; the implementation's inline changes are compared with the model segment by segment under the virtual clock.",
         "level_note": "unicode word segmentation is an external parameter; f32 gates are modelled by the soft-float model F32 (cross-checked against native Float32 by the driver on every request)",
@@ -188,8 +188,8 @@ PROPS.update({
     "C18": {
         "title": "get_close_matches equals exhaustive ranking by similarity ratio",
         "module": "SimilarVerif.Props.C18",
-        "suites": ["close", "api"],
-        "rule": "close: words and candidate lists (2-5 candidates incl. duplicates and the empty string) over {a,b,c,e-acute} up to length 4 x n 0..4 x cutoffs incl. values hit exactly, random longer words; thorough adds the tiny-ratio family (200000-char candidates); validator: brute-force ranking with the crate's own ratio(); non-trivial = >= 2 candidates pass; api: every thin public entry point (per-algorithm modules, diff/diff_slices, capture wrappers, Capture::into_*, TextDiff::from_*, diff_slices, owned text types, builder/getter/formatter re-use, Change/InlineChange accessors and Display, udiff::unified_diff, remapper slices, get_close_matches on bytes) against its canonical path on exhaustive small and random cases (implementation-only, metamorphic)",
+        "suites": ["close", "api", "uclose"],
+        "rule": "close: words and candidate lists (2-5 candidates incl. duplicates and the empty string) over {a,b,c,e-acute} up to length 4 x n 0..4 x cutoffs incl. values hit exactly, random longer words; thorough adds the tiny-ratio family (200000-char candidates); validator: brute-force ranking with the crate's own ratio(); non-trivial = >= 2 candidates pass; api: every thin public entry point (per-algorithm modules, diff/diff_slices, capture wrappers, Capture::into_*, TextDiff::from_*, diff_slices, owned text types, builder/getter/formatter re-use, Change/InlineChange accessors and Display, udiff::unified_diff, remapper slices, get_close_matches on bytes) against its canonical path on exhaustive small and random cases (implementation-only, metamorphic); uclose: the two pre-filters upper_seq_ratio and QuickSeqRatio::calc (f32 bits) compared with the soft-float model on all length pairs below 24, lengths around 2^24 and 2^25, random words over 1-4-byte chars; validator: both are upper bounds of the real ratio",
         "theorem_status": "FULL, no hypothesis: get_close_matches_is_exhaustive_ranking — for every tokenizer, word, candidate list, n and cutoff bit pattern (NaN, negative, subnormal, infinite included) the model returns exactly the first n of all candidates whose f32 ratio is >= cutoff, sorted by ratio descending then lexicographically; the two pre-filters are invisible (prefilters_are_invisible / filters_never_discard_f32); heap-key order = IEEE order of the ratios (key_order_is_ratio_order); the f32 operations are the soft-float model F32 (n as f32, 2.0*x, correctly rounded x/y, IEEE comparisons on arbitrary patterns) whose rounding is PROVED monotone (soft_float_rounding_is_monotone discharges the former Rnd hypothesis)",
         "level_text": "Lean theorems over a soft-float model of the f32 operations (exact natural-number arithmetic, validated against hardware on 5*10^5 vectors in lean/test-f32 and re-checked against native Float32 by the driver on every request); the implementation's results are compared bit for bit on every request.",
         "level_note": "trusted: hardware f32 = the soft-float model F32 on the values that occur (cross-checked on every run); no IEEE fact is assumed in any theorem",
